@@ -91,3 +91,77 @@ func checkDstContract(name string, f func(dst, src []byte) []byte, reference fun
 		return core.OK("accepted", true)
 	}
 }
+
+// dst may share memory with src as long as the APPENDED bytes cannot land on src: dst is src itself, or
+// src is a window of dst's existing content. Both statements then hold together (dst's content and src
+// stay untouched, the result is dst followed by the output). This is different from handing a function
+// dst = src[:0], where the output is written over the input (outside the statements, see DESIGN 8.7).
+type dstAliasCase struct {
+	Layout string `json:"layout"`
+	Src    core.S `json:"src"`
+}
+
+var dstAliasLayouts = []string{"dst-is-src", "dst-is-src-with-spare-capacity", "src-is-the-tail-of-dst", "src-is-the-tail-of-dst-with-spare-capacity", "src-is-the-head-of-dst", "src-is-in-the-middle-of-dst"}
+
+func genDstAlias(srcs []string) func(emit func(dstAliasCase) bool) {
+	return func(emit func(dstAliasCase) bool) {
+		for _, s := range srcs {
+			for _, l := range dstAliasLayouts {
+				if !emit(dstAliasCase{l, core.S(s)}) {
+					return
+				}
+			}
+		}
+	}
+}
+
+const dstAliasRule = "dst shares memory with src without the appended bytes being able to land on src (dst is src itself; src is the tail, the head or the middle of dst's existing content; with and without spare capacity): the result is dst followed by the reference output, src and dst's content are unchanged, a src outside the alphabet panics; non-trivial = all"
+
+func checkDstAlias(name string, f func(dst, src []byte) []byte, reference func(src []byte) ([]byte, bool)) func(dstAliasCase) core.Outcome {
+	return func(c dstAliasCase) core.Outcome {
+		s0 := c.Src.B()
+		n := len(s0)
+		var dst, src []byte
+		switch c.Layout {
+		case "dst-is-src":
+			buf := append(make([]byte, 0, n), s0...)
+			dst, src = buf[:n:n], buf[:n:n]
+		case "dst-is-src-with-spare-capacity":
+			buf := append(make([]byte, 0, 3*n+8), s0...)
+			dst, src = buf[:n], buf[:n]
+		case "src-is-the-tail-of-dst":
+			buf := append(append(make([]byte, 0, n+3), "xyz"...), s0...)
+			dst, src = buf[:n+3:n+3], buf[3:n+3:n+3]
+		case "src-is-the-tail-of-dst-with-spare-capacity":
+			buf := append(append(make([]byte, 0, 3*n+16), "xyz"...), s0...)
+			dst, src = buf[:n+3], buf[3:n+3]
+		case "src-is-the-head-of-dst":
+			buf := append(append(make([]byte, 0, 3*n+16), s0...), "xyz"...)
+			dst, src = buf[:n+3], buf[:n]
+		default:
+			buf := append(append(append(make([]byte, 0, 3*n+16), "ab"...), s0...), "yz"...)
+			dst, src = buf[:n+4], buf[2:n+2]
+		}
+		dstCopy := bytes.Clone(dst)
+		want, ok := reference(s0)
+		var got []byte
+		p := catch(func() { got = f(dst, src) })
+		desc := fmt.Sprintf("%s(dst, src) with %s, src %q", name, c.Layout, s0)
+		if !ok {
+			if p == "" {
+				return core.Failf("%s did not panic (returned %q)", desc, got)
+			}
+			return core.OK("panics", true)
+		}
+		if p != "" {
+			return core.Failf("%s panicked: %s", desc, p)
+		}
+		if !bytes.Equal(got, append(bytes.Clone(dstCopy), want...)) {
+			return core.Failf("%s = %q, want %q", desc, got, append(bytes.Clone(dstCopy), want...))
+		}
+		if !bytes.Equal(src, s0) || !bytes.Equal(dst, dstCopy) {
+			return core.Failf("%s changed its arguments: src %q -> %q, dst %q -> %q", desc, s0, src, dstCopy, dst)
+		}
+		return core.OK(c.Layout, true)
+	}
+}
